@@ -282,7 +282,9 @@ def main():
         if w is not None:
             run.fail(report.Failure(f"native[{label},{std}]#c++-bitspan-primitives-agree-with-the-proved-c-primitives", "post", w["why"][:600], {"witness": w}, True))
     _phase("C replay + C++ stand-in")
-    py_native(run, args)
+    import os
+    if os.environ.get("VK_PROOF_ONLY") != "1":  # experiments only: never set by a registered command
+        py_native(run, args)
     _phase("Python native stand-in")
     # an undischarged Python obligation is reported with the native run's failing input when that run found one for the same
     # primitive, otherwise as no-failing-input-found (sat) / undecided (unknown)
